@@ -195,6 +195,42 @@ func runFieldCov(c *Ctx, r *Reporter, spec fieldCovSpec) {
 		info := declPkg[fo].TypesInfo
 		fieldReads(info, fd.Decl.Body, reads)
 		ast.Inspect(fd.Decl.Body, func(n ast.Node) bool {
+			// `case *A, *B: … n.M()`: the clause variable keeps the interface type, the call is M of A or of B
+			if cc, ok := n.(*ast.CaseClause); ok && len(cc.List) > 1 {
+				if bound := info.Implicits[cc]; bound != nil {
+					for _, st := range cc.Body {
+						ast.Inspect(st, func(m ast.Node) bool {
+							call, ok := m.(*ast.CallExpr)
+							if !ok {
+								return true
+							}
+							sel, ok := call.Fun.(*ast.SelectorExpr)
+							if !ok {
+								return true
+							}
+							if id, ok := ast.Unparen(sel.X).(*ast.Ident); !ok || info.Uses[id] != bound {
+								return true
+							}
+							for _, te := range cc.List {
+								t := info.TypeOf(te)
+								if t == nil {
+									continue
+								}
+								if msel := types.NewMethodSet(t).Lookup(declPkg[fo].Types, sel.Sel.Name); msel != nil {
+									if cf, ok := msel.Obj().(*types.Func); ok {
+										cf = cf.Origin()
+										if _, known := decls[cf]; known && !seen[cf] {
+											seen[cf] = true
+											work = append(work, cf)
+										}
+									}
+								}
+							}
+							return true
+						})
+					}
+				}
+			}
 			call, ok := n.(*ast.CallExpr)
 			if !ok {
 				return true
